@@ -9,9 +9,13 @@ pub mod c08;
 pub mod c09;
 pub mod c10;
 pub mod c11;
+pub mod c12;
+pub mod c13;
 pub mod c14;
 pub mod c15;
+pub mod c16;
 pub mod c17;
+pub mod c18;
 pub mod c19;
 pub mod common;
 
@@ -31,9 +35,13 @@ pub fn run(id: &str, ctx: &Ctx) -> Option<Report> {
         "C09" => c09::run(ctx),
         "C10" => c10::run(ctx),
         "C11" => c11::run(ctx),
+        "C12" => c12::run(ctx),
+        "C13" => c13::run(ctx),
         "C14" => c14::run(ctx),
         "C15" => c15::run(ctx),
+        "C16" => c16::run(ctx),
         "C17" => c17::run(ctx),
+        "C18" => c18::run(ctx),
         "C19" => c19::run(ctx),
         _ => return None,
     })
@@ -52,9 +60,13 @@ pub fn replay(id: &str, stage: &str, case: &Value) -> Option<Check> {
         "C09" => c09::replay(stage, case),
         "C10" => c10::replay(stage, case),
         "C11" => c11::replay(stage, case),
+        "C12" => c12::replay(stage, case),
+        "C13" => c13::replay(stage, case),
         "C14" => c14::replay(stage, case),
         "C15" => c15::replay(stage, case),
+        "C16" => c16::replay(stage, case),
         "C17" => c17::replay(stage, case),
+        "C18" => c18::replay(stage, case),
         "C19" => c19::replay(stage, case),
         _ => return None,
     })
